@@ -39,7 +39,7 @@ BUDGET = {"quick": dict(cases=3000, seconds=55, shards=4),
           "thorough": dict(cases=600000, seconds=420, shards=16)}
 REQUIRED = ["mon:model-equal", "mon:compiled-equals-interpreted", "mon:constant-reproduced",
             "mon:bounded-by-contributing", "mon:linear", "mon:row-independent", "mon:sg-cubic-exact",
-            "mon:empty-window-zero", "mon:boundscheck-clean"]
+            "mon:empty-window-zero", "mon:boundscheck-clean", "mon:earlier-output-keeps-its-values"]
 
 _ops = None
 
@@ -308,6 +308,47 @@ def fam_linear_rows(ctx, rng):
         ctx.nontrivial(["rows", name, meta["n"], meta["dt"], nrows, round(b, 6)])
 
 
+def fam_reused_buffers(ctx, rng):
+    """A script that loops over recordings keeps ONE frequency / spectrum / centre-frequency buffer and refills it.
+
+    Each call must answer for the content the buffers hold at that call (not for what the same array object held
+    at an earlier call), and an output handed out earlier must keep its values when the operator is called again.
+    """
+    name = M.OPERATORS[int(rng.integers(0, 7))]
+    if rng.random() < 0.4:
+        name = "savitzky_and_golay"
+    n = int(rng.choice([64, 100, 256, 500, 1024]))
+    nrows = int(rng.integers(1, 5))
+    fbuf = np.empty(n // 2 + 1)
+    sbuf = np.empty((nrows, n // 2 + 1))
+    ncalls = int(rng.integers(2, 5))
+    held = []
+    for k in range(ncalls):
+        dt = float(DTS[int(rng.integers(0, len(DTS)))])
+        f = np.fft.rfftfreq(n, dt)
+        if name != "savitzky_and_golay" and rng.random() < 0.3:
+            f = f + float(rng.uniform(0, 0.5)) * f[1]          # shifted origin
+        fbuf[:] = f
+        scls = SPEC_CLASSES[int(rng.integers(0, len(SPEC_CLASSES)))]
+        sbuf[:] = gen_spectrum(rng, scls, nrows, fbuf)
+        fcls = FC_CLASSES[int(rng.integers(0, len(FC_CLASSES)))]
+        fcs = np.ascontiguousarray(gen_fcs(rng, fcls, fbuf))
+        if k == 0:
+            fcbuf = fcs.copy()
+        elif fcs.size >= fcbuf.size and rng.random() < 0.7:
+            fcbuf[:] = fcs[:fcbuf.size]                          # same object, new content
+            fcs = fcbuf
+        b = gen_bandwidth(rng, name, fbuf)
+        meta = dict(name=name, n=n, dt=dt, nrows=nrows, scls=scls, fcls=fcls + "/reused-buffers", b=b, call_number=k)
+        ctx.describe(**meta, fcs=fcs)
+        out, _ = judge(ctx, meta, fbuf, sbuf, fcs, interpreted_too=False)
+        for k0, (o_ref, o_copy) in enumerate(held):
+            ctx.check(bool(np.array_equal(o_ref, o_copy, equal_nan=True)), "earlier-output-keeps-its-values",
+                      f"{name}: the array returned by call {k0} changed during call {k}", **meta)
+        held.append((out, np.array(out)))
+    ctx.count("cases_with_buffers_refilled_in_place")
+
+
 def fam_sg_cubic(ctx, rng):
     """Savitzky-Golay reproduces cubic polynomials of the bin index exactly (and the interior only)."""
     n = int(rng.choice([64, 200, 512, 2048]))
@@ -423,7 +464,7 @@ def fam_dtypes(ctx, rng):
     ctx.state([name, np.dtype(dtype).name])
 
 
-FAMILIES = [("non-float64-spectra", fam_dtypes), ("model-small-grid", fam_model_small), ("model-fft-grid", fam_model_fft),
+FAMILIES = [("non-float64-spectra", fam_dtypes), ("buffers-refilled-in-place", fam_reused_buffers), ("model-small-grid", fam_model_small), ("model-fft-grid", fam_model_fft),
             ("window-edges", fam_edges), ("linearity-rows", fam_linear_rows),
             ("sg-cubic", fam_sg_cubic), ("model-small-grid-2", fam_model_small),
             ("boundscheck", fam_boundscheck), ("exactly-representable-grid-edges", fam_dyadic_edges)]
